@@ -261,15 +261,32 @@ func init() {
 		},
 		"encoding/base64.Encoding.DecodeString": func(fr *Frame, st *State, call ssa.CallInstruction, fn *ssa.Function, a []Term) ([]Term, bool) {
 			vc := fr.vc
-			vc.Assumed["base64 decoding is a function of its input (b64urlDecode uninterpreted)"] = true
-			vc.sc.DeclFun("b64urlDecode", []string{"String"}, "String")
-			content := sx("b64urlDecode", a[1])
+			vc.Assumed["base64 decoding is a function of its input and of the encoding used (b64urlDecode = RawURLEncoding; uninterpreted)"] = true
+			dfn := "b64urlDecode"
+			if n := b64EncodingName(call); n != "RawURLEncoding" {
+				dfn = "b64Decode_" + n
+			}
+			vc.sc.DeclFun(dfn, []string{"String"}, "String")
+			content := sx(dfn, a[1])
 			base := vc.alloc(st, fr.prefix+"b64")
 			r := vc.sc.Fresh(fr.prefix+"decoded", "Slice")
 			vc.sc.Def(And(Eq(r, vc.mkSlice(base, sx("str.len", content), sx("str.len", content))), Eq(sx("bstr", r), content)))
 			e := vc.sc.Fresh(fr.prefix+"b64err", "Val")
 			vc.sc.Assume(st.reach, And(Or(Eq(e, "nilval"), sx("vnn", e)), vc.notModuleErr(e)))
 			return []Term{r, e}, true
+		},
+		"encoding/base64.Encoding.EncodeToString": func(fr *Frame, st *State, call ssa.CallInstruction, fn *ssa.Function, a []Term) ([]Term, bool) {
+			vc := fr.vc
+			vc.Assumed["base64 encoding is a function of its input and of the encoding used (b64urlEncode = RawURLEncoding; uninterpreted); decoding inverts it"] = true
+			efn, dfn := "b64urlEncode", "b64urlDecode"
+			if n := b64EncodingName(call); n != "RawURLEncoding" {
+				efn, dfn = "b64Encode_"+n, "b64Decode_"+n
+			}
+			vc.sc.DeclFun(efn, []string{"String"}, "String")
+			vc.sc.DeclFun(dfn, []string{"String"}, "String")
+			r := sx(efn, sx("bstr", a[1]))
+			vc.sc.Axiom(Eq(sx(dfn, r), sx("bstr", a[1])))
+			return []Term{r}, true
 		},
 		"encoding/json.Unmarshal": func(fr *Frame, st *State, call ssa.CallInstruction, fn *ssa.Function, a []Term) ([]Term, bool) {
 			return fr.decodeIntoJSON(st, call, 1, a, "encoding/json.Unmarshal", a[0]), true
@@ -613,4 +630,21 @@ func (vc *VC) assumeLinkedFresh(st, before *State, p Term, pt types.Type, clk Te
 		}
 		vc.sc.Assume(st.reach, Or(Eq(nv, ov), Eq(nv, "nilref"), sx(">=", sx("birth", sx("root", nv)), clk)))
 	}
+}
+
+// b64EncodingName: the package-level encoding a base64 method is invoked on (RawURLEncoding, ...),
+// "unknown" when the receiver is not a direct load of such a variable.
+func b64EncodingName(call ssa.CallInstruction) string {
+	args := call.Common().Args
+	if len(args) > 0 {
+		if u, ok := args[0].(*ssa.UnOp); ok {
+			if g, ok := u.X.(*ssa.Global); ok && g.Pkg != nil && g.Pkg.Pkg.Path() == "encoding/base64" {
+				return g.Name()
+			}
+		}
+		if g, ok := args[0].(*ssa.Global); ok {
+			return g.Name()
+		}
+	}
+	return "unknown"
 }
